@@ -58,7 +58,7 @@ def _control(job):
         return out
     except BaseException as e:  # noqa: BLE001
         return {"alive_before": False, "gone_after_kill_ms": -1, "wait_returned": False, "gone_after_wait_then_kill_ms": -1,
-                "pending_wait_returned": False, "err": type(e).__name__}
+                "pending_wait_returned": False, "lingering_before_kill": False, "gone_after_exit_then_kill_ms": -1, "err": type(e).__name__}
     finally:
         try:
             group.terminate(timeout=2)
